@@ -38,6 +38,21 @@ def bnInit (c : BNCfg α) (channels : Nat) (affine : Bool) : BNState α :=
     beta := if affine then some (List.replicate channels 0) else none,
     nbt := 0, training := true }
 
+/-- what the layer owns after `BatchNorm1d(...)` / `BatchNorm2d(...)` with these options, whichever way the call spells them
+    (positionally or by keyword): `weight` and `bias` exist iff `affine`, `running_mean` and `running_var` iff
+    `track_running_stats`; the number of learnable parameters -/
+structure BNOwns where
+  weight : Bool
+  bias : Bool
+  runningMean : Bool
+  runningVar : Bool
+  params : Nat
+deriving Repr, DecidableEq
+
+def bnOwns (c : BNCfg α) (s : BNState α) : BNOwns :=
+  { weight := s.gamma.isSome, bias := s.beta.isSome, runningMean := c.track, runningVar := c.track,
+    params := (if s.gamma.isSome then 1 else 0) + (if s.beta.isSome then 1 else 0) }
+
 /-- normalise one channel with the given statistics and optional affine parameters -/
 def normalise (eps : α) (m v : α) (g b : Option α) (xs : List α) : List α :=
   xs.map (fun x =>
